@@ -194,7 +194,7 @@ def excel_pair(chk, P):
            expect="one write of the saved bytes", key="C19.X1|write")
 
 
-def excel_eam(chk, P):
+def excel_eam(chk, P, rule="C19.X2"):
     from .c17 import concrete_eam
     I = W.make_interp(P)
     excelmodel.install(I)
@@ -205,22 +205,22 @@ def excel_eam(chk, P):
     for title, first, cut, n, fnpre in (("EAM-Density", "r", "cutoff", "nr", "rho_"), ("EAM-Embed", "rho", "cutoff_rho", "nrho", "F_")):
         ws = wb.obj.sheet(title)
         if ws is None:
-            chk.ob("C19.X2", "sheet %s exists" % title, False, site=site, key="C19.X2|%s|exists" % title)
+            chk.ob(rule, "sheet %s exists" % title, False, site=site, key=rule + "|%s|exists" % title)
             continue
         heads, row = sheet_rows(ws)
         rv = I.num(ws.cells[(row, 1)])
-        chk.ob("C19.X2", "%s: first column %r on the grid i*%s/(%s-1)" % (title, first, cut, n),
+        chk.ob(rule, "%s: first column %r on the grid i*%s/(%s-1)" % (title, first, cut, n),
                isinstance(heads.get(1), Const) and heads[1].v == first and grid_ok(row, rv, cut, n), site=site, found=(heads.get(1), rv),
-               expect="%s, i*%s/(%s-1)" % (first, cut, n), key="C19.X2|%s|grid" % title)
+               expect="%s, i*%s/(%s-1)" % (first, cut, n), key=rule + "|%s|grid" % title)
         for sp in ("Al", "Cu"):
             cols = [c for c, v in heads.items() if isinstance(v, Const) and v.v == sp]
             ok = len(cols) == 1
             got = ws.cells.get((row, cols[0])) if ok else None
             ok = ok and isinstance(got, Num) and ep.equal(got.rf, ep.app(("param", fnpre + sp), [rv]))[0]
-            chk.ob("C19.X2", "%s: column %r holds %s%s at the row's grid value" % (title, sp, fnpre, sp), ok, site=site, found=got,
-                   expect="%s%s(x_i)" % (fnpre, sp), key="C19.X2|%s|col|%s" % (title, sp))
+            chk.ob(rule, "%s: column %r holds %s%s at the row's grid value" % (title, sp, fnpre, sp), ok, site=site, found=got,
+                   expect="%s%s(x_i)" % (fnpre, sp), key=rule + "|%s|col|%s" % (title, sp))
     ws = wb.obj.sheet("Pair")
-    chk.ob("C19.X2", "the EAM workbook also carries the Pair sheet", ws is not None and len(ws.cells) > 3, site=site,
-           found=None if ws is None else len(ws.cells), expect="Pair sheet", key="C19.X2|pair-sheet")
-    chk.ob("C19.X2", "sheets: Pair, EAM-Density, EAM-Embed", sorted(s.title for s in wb.obj.sheets) == ["EAM-Density", "EAM-Embed", "Pair"],
-           site=site, found=sorted(s.title for s in wb.obj.sheets), expect=["EAM-Density", "EAM-Embed", "Pair"], key="C19.X2|sheets")
+    chk.ob(rule, "the EAM workbook also carries the Pair sheet", ws is not None and len(ws.cells) > 3, site=site,
+           found=None if ws is None else len(ws.cells), expect="Pair sheet", key=rule + "|pair-sheet")
+    chk.ob(rule, "sheets: Pair, EAM-Density, EAM-Embed", sorted(s.title for s in wb.obj.sheets) == ["EAM-Density", "EAM-Embed", "Pair"],
+           site=site, found=sorted(s.title for s in wb.obj.sheets), expect=["EAM-Density", "EAM-Embed", "Pair"], key=rule + "|sheets")
